@@ -752,11 +752,11 @@ func TestC15(t *testing.T) {
 		"five round-trip families: (string-escapes) rapid strings of 0..10 items over an alphabet with every escape target, quotes, backslash, non-ASCII/BMP/astral characters, rendered with a harness-side escaper that randomly picks the raw, simple-escape or \\uXXXX spelling; (literals) enumerated and rapid Date/DateTime/Time texts over precision × fraction digits 0..6 × offset forms, Integer/Decimal texts with leading/trailing zeros up to 30 digits, quantities with every calendar keyword and UCUM units: the literal evaluates to the denoted value, its String() re-parses to an equal value of the same precision/offset and `x = parse(x.String())` is true; (system-proto) every temporal/numeric/quantity pool value through ToProto*/…FromProto/From; (fhir-helpers) rapid FHIR date/dateTime/instant/time texts through fhir.Parse* and fhirconv.*ToString both ways and against the google/fhir JSON rendering in a carrier resource; (narrowing) all 11×11 instantiations of narrow.ToInteger with every 8/16-bit source value and ±2 around every power of two and type limit for wider sources, and fhirconv.ToInteger for boundary FHIR integers.  non-trivial = the representation is not the naive one (an escape, a fraction, an offset, sub-day precision, > 15 digits, a quantity) or From ≠ To; distinct = FNV-64 of the case",
 		"fractions beyond milliseconds are outside System DateTime/Time (millisecond step size)", "Z ≡ +00:00")
 	runProperty(t, r,
-		Stage[c15StrCase]{Name: "string-escapes", Gen: c15GenStr, Run: c15RunStr, N: pick(8000, 200000)},
+		Stage[c15StrCase]{Name: "string-escapes", Gen: c15GenStr, Run: c15RunStr, N: pick(24000, 200000)},
 		Stage[c15LitCase]{Name: "literals-enum", Enum: c15EnumLits, Run: c15RunLit},
-		Stage[c15LitCase]{Name: "literals", Gen: c15GenLit, Run: c15RunLit, N: pick(6000, 150000)},
+		Stage[c15LitCase]{Name: "literals", Gen: c15GenLit, Run: c15RunLit, N: pick(18000, 150000)},
 		Stage[c15ProtoCase]{Name: "system-proto", Enum: c15EnumProto, Run: c15RunProto},
-		Stage[c15HelperCase]{Name: "fhir-helpers", Gen: c15GenHelper, Run: c15RunHelper, N: pick(6000, 150000)},
+		Stage[c15HelperCase]{Name: "fhir-helpers", Gen: c15GenHelper, Run: c15RunHelper, N: pick(18000, 150000)},
 		Stage[c15NarrowCase]{Name: "narrowing", Enum: c15EnumNarrow, Run: c15RunNarrow},
 		Stage[c15FhirIntCase]{Name: "fhirconv-integer", Enum: c15EnumFhirInt, Run: c15RunFhirInt},
 	)
